@@ -56,10 +56,49 @@ type FV float64
 
 func (a FV) Less(b interface{}) bool { return a < b.(FV) }
 
+// Keyed is embedded by function-local element types (which cannot have methods of their own): two
+// such types, declared in two functions under the same name, are different types with the same name.
+type Keyed struct{ K int }
+
+func (a Keyed) key() int                { return a.K }
+func (a Keyed) Less(b interface{}) bool { return a.K < b.(interface{ key() int }).key() }
+
+type localOps struct {
+	proto interface{}
+	mk    func(v int) morass.LessInterface
+	pull  func(m *morass.Morass) (int, bool, error)
+}
+
+func localOne() localOps {
+	type rec struct {
+		Keyed
+		Score int
+	}
+	return localOps{rec{}, func(v int) morass.LessInterface { return rec{Keyed{v}, v * v} },
+		func(m *morass.Morass) (int, bool, error) {
+			var x rec
+			err := m.Pull(&x)
+			return x.K, x.Score == x.K*x.K, err
+		}}
+}
+
+func localTwo() localOps {
+	type rec struct {
+		Keyed
+		From, To int
+	}
+	return localOps{rec{}, func(v int) morass.LessInterface { return rec{Keyed{v}, v, v + 1} },
+		func(m *morass.Morass) (int, bool, error) {
+			var x rec
+			err := m.Pull(&x)
+			return x.K, x.From == x.K && x.To == x.K+1, err
+		}}
+}
+
 // Warm registers the element type with gob once, outside any exploration, so
 // that every explored execution takes the same path through morass.register.
 func Warm() {
-	for _, proto := range []interface{}{IV(0), SV{}, TV(""), FV(0), filter.Hit{}} {
+	for _, proto := range []interface{}{IV(0), SV{}, TV(""), FV(0), filter.Hit{}, localOne().proto, localTwo().proto} {
 		if m, err := morass.New(proto, "warm", "", 1, false); err == nil {
 			m.CleanUp()
 		}
@@ -84,6 +123,7 @@ type Scenario struct {
 	Faults     bool // C13: errors are expected when a fault was injected
 	Continue   bool // after a failing call the cycle is abandoned, the sorter cleared and the next cycle run (C13: a failure in a later cycle must surface as well)
 	Abandon    bool // the first cycle is given up after its pushes: Clear without Finalise or Pull, then the next cycle
+	Local      bool // elements of a function-local type that shares its name with another function's local type (both used in the process)
 	Hit        bool // elements of the library's own filter.Hit type (negative and large diagonals)
 	Struct     bool // struct elements some of whose fields are zero for some values (an encoding that omits zero fields)
 	AutoClear  bool // the sorter clears itself when a drain reaches io.EOF; no explicit Clear between cycles
@@ -121,6 +161,9 @@ func (s Scenario) Name() string {
 	}
 	if s.Hit {
 		after += "-hit"
+	}
+	if s.Local {
+		after += "-localtype"
 	}
 	return fmt.Sprintf("sort-%s-chunk%d-push%s%s", mode, s.Chunk, strings.Join(cs, "+"), after)
 }
@@ -195,6 +238,10 @@ func (s Scenario) Mk() vrt.Run {
 		if s.Hit {
 			proto = filter.Hit{}
 		}
+		lo := localTwo()
+		if s.Local {
+			proto = lo.proto
+		}
 		m, err := morass.New(proto, "vrt", parent, s.Chunk, s.Concurrent)
 		if err != nil {
 			newErr = err
@@ -209,6 +256,9 @@ func (s Scenario) Mk() vrt.Run {
 			for i := n; i > 0; i-- {
 				v := base + i
 				if do("Push", func() error {
+					if s.Local {
+						return m.Push(lo.mk(v))
+					}
 					if s.Hit {
 						return m.Push(hv(v))
 					}
@@ -233,7 +283,12 @@ func (s Scenario) Mk() vrt.Run {
 				var v IV
 				var w SV
 				var h filter.Hit
-				err := do("Pull", func() error {
+				localKey, localOK := 0, true
+				err := do("Pull", func() (err error) {
+					if s.Local {
+						localKey, localOK, err = lo.pull(m)
+						return err
+					}
 					if s.Hit {
 						return m.Pull(&h)
 					}
@@ -247,6 +302,11 @@ func (s Scenario) Mk() vrt.Run {
 				}
 				if err != nil {
 					return false
+				}
+				if s.Local {
+					if v = IV(localKey); !localOK {
+						v = IV(-1000 - localKey)
+					}
 				}
 				if s.Hit {
 					if v = IV(h.From); h != hv(h.From) {
